@@ -166,3 +166,81 @@ def conditional_values(model: int, with_layers: bool, with_l2: bool, unknown: bo
   if with_l2:
     ok = ok and got['l2'] == l2 and isinstance(got['l2'], float)
   return finish(ok, (model, with_layers, with_l2, unknown, layers, l2, wire))
+
+
+_SC2 = None
+
+
+def _config2():
+  """Conditional parents of the other kinds: boolean, integer-valued discrete, integer."""
+  global _SC2
+  with NoTracing():
+    if _SC2 is None:
+      sc = vz.StudyConfig(algorithm='RANDOM_SEARCH')
+      r = sc.search_space.root
+      bn = r.add_bool_param('use_bn')
+      bn.select_values(['True']).add_float_param('bn_momentum', 0.5, 1.0)
+      bn.select_values(['False']).add_discrete_param('groups', [1, 2, 4, 8])
+      st = r.add_discrete_param('stages', [1, 2, 4])
+      st.select_values([2, 4]).add_categorical_param('merge', ['add', 'cat'])
+      dp = r.add_int_param('depth', 1, 3)
+      dp.select_values([3]).add_float_param('drop', 0.0, 1.0)
+      sc.metric_information.append(vz.MetricInformation('m', goal=vz.ObjectiveMetricGoal.MAXIMIZE))
+      _SC2 = vz.StudyConfig.from_proto(sc.to_proto())       # as a client reads it back
+    return _SC2
+
+
+def conditional_other_parents(bn: bool, stages: int, depth: int, momentum: float, drop: float, groups: int,
+                              wrong: int) -> bool:
+  """
+  pre: 0 <= stages <= 2 and 1 <= depth <= 3 and 0 <= groups <= 3 and 0 <= wrong <= 3
+  post: _
+  """
+  if not (0.5 <= momentum <= 1.0 and 0.0 <= drop <= 1.0):
+    return True
+  args = (bn, stages, depth, momentum, drop, groups, wrong)
+  bn, stages, depth, groups, wrong = cbool(bn), [1, 2, 4][conc(stages, 0, 2)], conc(depth, 1, 3), [1, 2, 4, 8][conc(groups, 0, 3)], conc(wrong, 0, 3)
+  sc = _config2()
+  params = {'use_bn': 'True' if bn else 'False', 'stages': stages, 'depth': depth}
+  want = {'use_bn': bn, 'stages': stages, 'depth': depth}
+  if bn:
+    params['bn_momentum'] = momentum
+    want['bn_momentum'] = momentum
+  else:
+    params['groups'] = groups
+    want['groups'] = groups
+  if stages in (2, 4):
+    params['merge'] = 'cat'
+    want['merge'] = 'cat'
+  if depth == 3:
+    params['drop'] = drop
+    want['drop'] = drop
+  # wrong = 1..3: additionally carry a child that is INACTIVE for the chosen parent value
+  must_fail = False
+  if wrong == 1:
+    if bn:
+      params['groups'] = groups
+    else:
+      params['bn_momentum'] = momentum
+    must_fail = True
+  elif wrong == 2 and stages == 1:
+    params['merge'] = 'add'
+    must_fail = True
+  elif wrong == 3 and depth != 3:
+    params['drop'] = drop
+    must_fail = True
+  proto = pc.TrialConverter.to_proto(vz.Trial(id=5, parameters=params))
+  try:
+    got = sc.trial_parameters(proto)
+    raised = False
+  except ValueError:
+    got, raised = None, True
+  reach('other_parents_fail' if must_fail else 'other_parents_ok')
+  if must_fail:
+    return finish(raised, args)
+  ok = not raised and sorted(got.keys()) == sorted(want.keys())
+  if ok:
+    for k, v in want.items():
+      # (the presentation type of plain INTEGER parameters is not fixed by the property: equality only)
+      ok = ok and got[k] == v and (k == 'depth' or type(got[k]) is type(v))
+  return finish(ok, args)
